@@ -1,7 +1,222 @@
+(* C37 — proofs about the model of the name builders. *)
 From Coq Require Import List NArith Arith Bool Lia.
 From Verif.C37 Require Import Model Spec.
 Import ListNotations.
 
-Lemma gllid_deterministic : forall H p s max a b,
-  gllid H p s max = a -> gllid H p s max = b -> a = b.
+(* ---------- byte strings ---------- *)
+
+Lemma beq_eq : forall a b, beq a b = true <-> a = b.
+Proof.
+  induction a as [|x a IH]; destruct b as [|y b]; simpl; split; intro E; try reflexivity; try discriminate.
+  - apply andb_true_iff in E. destruct E as [E1 E2]. apply N.eqb_eq in E1. apply IH in E2. subst. reflexivity.
+  - inversion E; subst. rewrite N.eqb_refl. simpl. apply IH. reflexivity.
+Qed.
+
+Lemma beq_refl : forall a, beq a a = true.
+Proof. intro a. apply beq_eq. reflexivity. Qed.
+
+Lemma bytes_dec : forall a b : bytes, {a = b} + {a <> b}.
+Proof. intros a b. destruct (beq a b) eqn:E. left; apply beq_eq; exact E. right; intro X; apply beq_eq in X; congruence. Qed.
+
+(* two texts that stop agreeing inside both of them stay different whatever follows *)
+Fixpoint diverge (a b : bytes) : bool :=
+  match a, b with
+  | x :: a', y :: b' => if N.eqb x y then diverge a' b' else true
+  | _, _ => false
+  end.
+
+Lemma diverge_app : forall a b x y, diverge a b = true -> a ++ x <> b ++ y.
+Proof.
+  induction a as [|c a IH]; destruct b as [|d b]; simpl; intros x y D; try discriminate.
+  destruct (N.eqb c d) eqn:E.
+  - intro X. inversion X. eapply IH; eauto.
+  - intro X. inversion X. subst. rewrite N.eqb_refl in E. discriminate.
+Qed.
+
+Lemma has_app : forall c a b, has c (a ++ b) = has c a || has c b.
+Proof. intros. unfold has. apply existsb_app. Qed.
+
+Lemma has_cons_self : forall c b, has c (c :: b) = true.
+Proof. intros. unfold has. simpl. rewrite N.eqb_refl. reflexivity. Qed.
+
+(* splitting at the first occurrence of a separator is unambiguous *)
+Lemma split_unique : forall c x x' r r',
+  has c x = false -> has c x' = false -> x ++ c :: r = x' ++ c :: r' -> x = x' /\ r = r'.
+Proof.
+  induction x as [|a x IH]; destruct x' as [|a' x']; simpl; intros r r' Hx Hx' E.
+  - inversion E. auto.
+  - inversion E. subst. unfold has in Hx'. simpl in Hx'. rewrite N.eqb_refl in Hx'. discriminate.
+  - inversion E. subst. unfold has in Hx. simpl in Hx. rewrite N.eqb_refl in Hx. discriminate.
+  - inversion E. subst. unfold has in Hx, Hx'. simpl in Hx, Hx'.
+    apply orb_false_iff in Hx. apply orb_false_iff in Hx'.
+    destruct (IH x' r r') as [A B]; try tauto. subst. auto.
+Qed.
+
+(* ---------- GetLengthLimitedID ---------- *)
+
+Definition shortened (clamp : bool) (p s : bytes) (max : nat) : Prop :=
+  must_shorten clamp (length p) (eff s) max = true.
+Definition left_chars (clamp : bool) (p : bytes) (max : nat) : nat :=
+  short_len clamp (length p) max - 1 - length p.
+
+Lemma short_len_le : forall clamp plen max, short_len clamp plen max <= max.
+Proof. intros. unfold short_len. destruct clamp; lia. Qed.
+
+Lemma eff_nonempty : forall s, eff s <> [].
+Proof. destruct s; simpl; discriminate. Qed.
+
+Lemma eff_eq_iff : forall a b,
+  eff a = eff b <-> a = b \/ (a = [] /\ b = [marker]) \/ (a = [marker] /\ b = []).
+Proof.
+  intros a b. split.
+  - destruct a as [|x a], b as [|y b]; simpl; intro E.
+    + left; reflexivity.
+    + right. left. split; congruence.
+    + right. right. split; congruence.
+    + left; exact E.
+  - intros [E | [[A B] | [A B]]]; subst; reflexivity.
+Qed.
+
+Section GLLID.
+  Variable clamp : bool.
+  Variable H : bytes -> bytes.
+
+  Lemma gllid_eff : forall p s max, gllid clamp H p s max = gllid clamp H p (eff s) max.
+  Proof. intros. unfold gllid. destruct s; reflexivity. Qed.
+
+  Lemma gllid_short : forall p s max n,
+    gllid clamp H p s max = Some n -> shortened clamp p s max ->
+    left_chars clamp p max <> 0 /\
+    n = p ++ marker :: firstn (left_chars clamp p max) (H (eff s)) /\
+    length (firstn (left_chars clamp p max) (H (eff s))) = left_chars clamp p max.
+  Proof.
+    unfold gllid, shortened, left_chars. intros p s max n G S. rewrite S in G.
+    destruct (_ =? 0) eqn:E0; try discriminate.
+    destruct (_ <? _) eqn:E1; try discriminate.
+    apply Nat.eqb_neq in E0. apply Nat.ltb_ge in E1. inversion G. subst.
+    split; [exact E0|]. split; [reflexivity|]. apply firstn_length_le. exact E1.
+  Qed.
+
+  Lemma gllid_long : forall p s max n,
+    gllid clamp H p s max = Some n -> ~ shortened clamp p s max -> n = p ++ eff s.
+  Proof.
+    unfold gllid, shortened. intros p s max n G S.
+    destruct (must_shorten _ _ _ _); [exfalso; apply S; reflexivity|]. inversion G. reflexivity.
+  Qed.
+
+  Lemma shortened_dec : forall p s max, shortened clamp p s max \/ ~ shortened clamp p s max.
+  Proof. intros. unfold shortened. destruct (must_shorten _ _ _ _); [left|right]; congruence. Qed.
+
+  Lemma gllid_fits : forall p s max n, gllid clamp H p s max = Some n -> length n <= max.
+  Proof.
+    intros p s max n G. destruct (shortened_dec p s max) as [S|S].
+    - destruct (gllid_short _ _ _ _ G S) as [L [E Len]]. subst n.
+      rewrite app_length. simpl. rewrite Len. unfold left_chars in *.
+      pose proof (short_len_le clamp (length p) max). lia.
+    - rewrite (gllid_long _ _ _ _ G S). unfold shortened, must_shorten in S.
+      rewrite app_length. destruct (max <? length p + length (eff s)) eqn:E.
+      + simpl in S. exfalso. apply S. reflexivity.
+      + apply Nat.ltb_ge in E. exact E.
+  Qed.
+
+  Lemma gllid_prefix : forall p s max n, gllid clamp H p s max = Some n -> exists x, n = p ++ x /\ x <> [].
+  Proof.
+    intros p s max n G. destruct (shortened_dec p s max) as [S|S].
+    - destruct (gllid_short _ _ _ _ G S) as [_ [E _]]. eexists. split; [exact E|discriminate].
+    - exists (eff s). split. apply (gllid_long _ _ _ _ G S). apply eff_nonempty.
+  Qed.
+
+  (* a shortened name and an unshortened one never coincide *)
+  Lemma gllid_short_long_apart : forall p a b max n m,
+    gllid clamp H p a max = Some n -> shortened clamp p a max ->
+    gllid clamp H p b max = Some m -> ~ shortened clamp p b max -> n <> m.
+  Proof.
+    intros p a b max n m Ga Sa Gb Sb E. subst m.
+    destruct (gllid_short _ _ _ _ Ga Sa) as [L [En Len]].
+    rewrite (gllid_long _ _ _ _ Gb Sb) in En. apply app_inv_head in En.
+    apply Sb. unfold shortened, must_shorten. rewrite En. simpl length. rewrite Len.
+    unfold starts_marker. rewrite N.eqb_refl. unfold left_chars in *.
+    replace (length p + S (short_len clamp (length p) max - 1 - length p)) with (short_len clamp (length p) max) by lia.
+    rewrite Nat.eqb_refl. simpl. apply orb_true_r.
+  Qed.
+
+  (* exact characterisation of equal names *)
+  Theorem gllid_eq_iff : forall p a b max n m,
+    gllid clamp H p a max = Some n -> gllid clamp H p b max = Some m ->
+    (n = m <->
+     eff a = eff b \/
+     (shortened clamp p a max /\ shortened clamp p b max /\
+      firstn (left_chars clamp p max) (H (eff a)) = firstn (left_chars clamp p max) (H (eff b)))).
+  Proof.
+    intros p a b max n m Ga Gb. split.
+    - intro E. subst m.
+      destruct (shortened_dec p a max) as [Sa|Sa]; destruct (shortened_dec p b max) as [Sb|Sb].
+      + right. split; [exact Sa|]. split; [exact Sb|].
+        destruct (gllid_short _ _ _ _ Ga Sa) as [_ [Ea _]]. destruct (gllid_short _ _ _ _ Gb Sb) as [_ [Eb _]].
+        rewrite Ea in Eb. apply app_inv_head in Eb. inversion Eb. reflexivity.
+      + exfalso. apply (gllid_short_long_apart p a b max n n Ga Sa Gb Sb eq_refl).
+      + exfalso. apply (gllid_short_long_apart p b a max n n Gb Sb Ga Sa eq_refl).
+      + left. pose proof (gllid_long _ _ _ _ Ga Sa) as X. pose proof (gllid_long _ _ _ _ Gb Sb) as Y.
+        rewrite X in Y. apply app_inv_head in Y. exact Y.
+    - intros [E | [Sa [Sb E]]].
+      + rewrite gllid_eff in Ga. rewrite gllid_eff in Gb. rewrite E in Ga. congruence.
+      + destruct (gllid_short _ _ _ _ Ga Sa) as [_ [Ea _]]. destruct (gllid_short _ _ _ _ Gb Sb) as [_ [Eb _]].
+        rewrite Ea, Eb, E. reflexivity.
+  Qed.
+
+  (* the form asked for by the property: equal names => same identity, or a collision of
+     truncated digests of two different texts, or the degenerate ""/"_" pair *)
+  Theorem gllid_injective_mod_hash : forall p a b max n,
+    gllid clamp H p a max = Some n -> gllid clamp H p b max = Some n ->
+    a = b \/
+    (shortened clamp p a max /\ shortened clamp p b max /\ eff a <> eff b /\
+     firstn (left_chars clamp p max) (H (eff a)) = firstn (left_chars clamp p max) (H (eff b))) \/
+    (a = [] /\ b = [marker]) \/ (a = [marker] /\ b = []).
+  Proof.
+    intros p a b max n Ga Gb.
+    destruct (bytes_dec (eff a) (eff b)) as [E|NE].
+    - apply eff_eq_iff in E. tauto.
+    - destruct (proj1 (gllid_eq_iff _ _ _ _ _ _ Ga Gb) eq_refl) as [E|[Sa [Sb E]]]; [contradiction|].
+      right. left. auto.
+  Qed.
+
+  (* the degenerate clash is real: both spellings give the same name *)
+  Lemma gllid_empty_marker : forall p max, gllid clamp H p [] max = gllid clamp H p [marker] max.
+  Proof. intros. reflexivity. Qed.
+End GLLID.
+
+(* no panic where a name can fit: repaired variant, digest text of the stated length *)
+Lemma gllid_total_clamped : forall H p s max,
+  (forall x, length (H x) = hash_len) -> length p + 2 <= max ->
+  exists n, gllid true H p s max = Some n.
+Proof.
+  intros H p s max HL M. unfold gllid.
+  destruct (must_shorten true (length p) (eff s) max); [|eexists; reflexivity].
+  unfold short_len. rewrite HL.
+  destruct (_ =? 0) eqn:E0. { apply Nat.eqb_eq in E0. unfold hash_len in *. lia. }
+  destruct (_ <? _) eqn:E1. { apply Nat.ltb_lt in E1. unfold hash_len in *. lia. }
+  eexists; reflexivity.
+Qed.
+
+(* the code as found: total only while the room does not exceed the digest text *)
+Lemma gllid_total_unclamped : forall H p s max,
+  (forall x, length (H x) = hash_len) -> length p + 2 <= max -> max <= length p + 1 + hash_len ->
+  exists n, gllid false H p s max = Some n.
+Proof.
+  intros H p s max HL M M2. unfold gllid.
+  destruct (must_shorten false (length p) (eff s) max); [|eexists; reflexivity].
+  unfold short_len. rewrite HL.
+  destruct (_ =? 0) eqn:E0. { apply Nat.eqb_eq in E0. lia. }
+  destruct (_ <? _) eqn:E1. { apply Nat.ltb_lt in E1. lia. }
+  eexists; reflexivity.
+Qed.
+
+Lemma clamp_irrelevant_small : forall H p s max,
+  max <= length p + 1 + hash_len -> gllid true H p s max = gllid false H p s max.
+Proof.
+  intros. unfold gllid, must_shorten, short_len. rewrite Nat.min_l by lia. reflexivity.
+Qed.
+
+Lemma gllid_deterministic : forall clamp H p s max a b,
+  gllid clamp H p s max = a -> gllid clamp H p s max = b -> a = b.
 Proof. intros; congruence. Qed.
